@@ -277,6 +277,20 @@ def edge_texts():
         for o in orders:
             out.append("sort(%s, %s)" % (l, o))
             out.append("sort(list: %s, precedes: %s)" % (l, o))
+    # many DISTINCT arguments for one built-in within one expression (and so within one process): whatever a built-in keeps
+    # between calls (compiled patterns, parsed literals, zone rules) is driven past any small fixed capacity
+    S = '"x" + string(i)'
+    many = ['matches("x77", %s)' % S, 'matches(%s, "x.7")' % S, 'matches(%s, "X7", "i")' % S, 'replace("x1x2", %s, "y")' % S, 'replace(%s, "7", "y")' % S, 'split("ax1bx2c", %s)' % S, 'split(%s, "1")' % S,
+            'number("1" + string(i), ".", ",")', 'string length(%s)' % S, 'upper case(%s)' % S, 'substring(%s, 2)' % S, 'contains(%s, "1")' % S, 'starts with(%s, "x1")' % S, 'substring before(%s, "7")' % S,
+            'date(2021, modulo(i, 12) + 1, modulo(i, 28) + 1)', 'date("2021-01-" + (if i < 10 then "0" else "") + string(modulo(i, 28) + 1))', 'time(modulo(i, 24), modulo(i, 60), 0)', 'duration("P" + string(i) + "D")',
+            'duration("P" + string(i) + "M")', 'string(date and time("2021-03-27T00:00:00@Europe/Warsaw") + duration("PT" + string(i) + "H"))', 'date and time("2021-01-01T00:00:00Z") + duration("P" + string(i) + "D") > date and time("2021-03-01T00:00:00@America/New_York")',
+            'decimal(i / 7, modulo(i, 12))', 'string(i / 7)', 'floor(i / 3) + ceiling(i / 3)', 'get value({a: i}, "a")', 'get entries({a: i})', '(function(p) p + 1)(i)', 'fa(i)', 'i instance of number', 'index of([1, i], i)',
+            'day of week(date(2021, 1, modulo(i, 28) + 1))', 'week of year(date(2021, modulo(i, 12) + 1, 1))', 'years and months duration(date(2000, 1, 1), date(2000 + i, 1, 1))', 'string(time("10:00:00@Europe/Paris") + duration("PT" + string(i) + "M"))']
+    for t in many:
+        for n in (70, 150, 300):
+            out.append("for i in 1..%d return %s" % (n, t))
+        out.append("count(for i in 1..300 return %s)" % t)
+        out.append("some i in 1..300 satisfies %s = null" % t)
     return out
 
 
